@@ -21,7 +21,7 @@ class UnitError(Exception):
 # --------------------------------------------------------------------------
 # contracts.vrs parsing
 
-SECTION_KW = ("requires", "ensures", "invariant", "invariant_except_break", "ensures_loop", "decreases", "entry", "header", "props", "ret", "flags", "iter", "recommends", "before_body_end")
+SECTION_KW = ("body_entry", "requires", "ensures", "invariant", "invariant_except_break", "ensures_loop", "decreases", "entry", "header", "props", "ret", "flags", "iter", "recommends", "before_body_end")
 
 
 class Clause:
@@ -73,6 +73,16 @@ def parse_contracts(path):
                     cur.raw["iter"] = tok[5:]
             sec = None
             continue
+        if line.startswith("@after_let "):
+            nm = line.split()[1]
+            cur = Contract("after_let", nm)
+            if ":" in line:
+                cur.raw["type"] = line.split(":", 1)[1].strip()
+            cur_fn.after_lets = getattr(cur_fn, "after_lets", {})
+            cur_fn.after_lets[nm] = cur
+            cur.raw["entry"] = ""
+            sec = "entry"
+            continue
         if line.startswith("@closure "):
             k = int(line.split()[1])
             cur = Contract("closure", k)
@@ -94,7 +104,7 @@ def parse_contracts(path):
             elif head == "flags":
                 cur.flags |= set(rest.split())
                 sec = None
-            elif head in ("entry", "header", "decreases", "iter", "before_body_end"):
+            elif head in ("entry", "header", "decreases", "iter", "before_body_end", "body_entry"):
                 cur.raw[head] = rest
             else:
                 cur.sections.setdefault(head, [])
@@ -105,7 +115,7 @@ def parse_contracts(path):
         if sec is None:
             raise UnitError("%s:%d: unexpected line" % (path, lineno))
         s = line.strip()
-        if sec in ("entry", "header", "decreases", "iter", "before_body_end"):
+        if sec in ("entry", "header", "decreases", "iter", "before_body_end", "body_entry"):
             cur.raw[sec] = (cur.raw[sec] + "\n" + line) if cur.raw[sec] else line
             continue
         mm = re.match(r"\[([A-Za-z0-9_.\-]+)((?:\s+C\d+)*)\]\s*(.*)$", s)
@@ -201,13 +211,13 @@ class Unit:
     def rewrite(self, it: Item):
         if it.name in self.override:
             return self.override[it.name]
-        enabled = it.src_opts.get("rules", self.cfg.get("rules", ["R1", "R2", "R3", "R4", "R5", "R6", "R10", "R12", "R15"]))
+        enabled = it.src_opts.get("rules", self.cfg.get("rules", ["R1", "R2", "R3", "R4", "R5", "R6", "R10", "R12", "R15", "R16", "R17"]))
         t = it.text
         keep = set(self.cfg.get("keep_derives", list(R.KEEP_DERIVES)))
         if "R1" in enabled:
             t, n = R.r1_strip_attrs_comments(t, keep)
             self._count("R1", n)
-        for r in ("R2", "R5", "R4", "R6", "R3", "R10", "R15"):
+        for r in ("R2", "R5", "R4", "R6", "R16", "R17", "R3", "R10", "R15"):
             if r in enabled:
                 t, n = R.RULES[r](t)
                 self._count(r, n)
@@ -252,6 +262,8 @@ class Unit:
         props = (c.props if c and c.props else it.opts.get("props", self.props))
         fq = it.name + ("__canary" if canary else "")
         segs = []
+        if c and "loop_isolation_false" in c.flags:
+            segs.append(("t", "#[verifier::loop_isolation(false)]\n"))
         head = text[:fp.name_span[0]] + name + text[fp.name_span[1]:fp.params_close + 1]
         if fp.ret_span:
             rt = text[fp.ret_span[0]:fp.ret_span[1]].strip()
@@ -341,6 +353,35 @@ class Unit:
                 if k > len(closures):
                     raise LostAnchor("%s: closure #%d of %s not found" % (it.file, k, it.name))
                 inserts.append((closures[k - 1]["bars"][0], "closure", cc, closures[k - 1]))
+            for nm, ac in getattr(c, "after_lets", {}).items():
+                # anchor: the `let` statement (at any depth) whose pattern binds identifier nm
+                hits = []
+                for k in re.finditer(r"\blet\b", m):
+                    j = k.end()
+                    # pattern up to '=' or ':' at depth 0
+                    q = j
+                    while q < len(m) and m[q] not in "=;":
+                        if m[q] in "([{":
+                            q = L.match_close(m, q)
+                        q += 1
+                    if q >= len(m) or m[q] != "=":
+                        continue
+                    patt = m[j:q].split(":")[0]
+                    if not re.search(r"\b%s\b" % re.escape(nm), patt):
+                        continue
+                    if "type" in ac.raw and ":" not in m[j:q]:
+                        # type ascription on the binding (inference-neutral: it is the inferred type or a compile error)
+                        inserts.append((j + len(m[j:q].rstrip()), "entry_inline", ": " + ac.raw["type"] + " ", None))
+                    # end of statement: ';' at depth 0 (let-else blocks are braces → skipped by matching)
+                    e = q
+                    while e < len(m) and m[e] != ";":
+                        if m[e] in "([{":
+                            e = L.match_close(m, e)
+                        e += 1
+                    hits.append(e + 1)
+                if len(hits) != 1:
+                    raise LostAnchor("%s: `let %s` anchor of %s matches %d statements" % (it.file, nm, it.name, len(hits)))
+                inserts.append((hits[0], "entry", ac.raw["entry"], None))
             if "entry" in c.raw:
                 inserts.append((1, "entry", c.raw["entry"], None))
             if "before_body_end" in c.raw:
@@ -351,7 +392,10 @@ class Unit:
         for p, kind, payload, extra in inserts:
             if p < pos:
                 raise UnitError("overlapping splice positions in %s" % it.name)
-            if kind == "entry":
+            if kind == "entry_inline":
+                segs.append(("t", body[pos:p] + payload))
+                pos = p
+            elif kind == "entry":
                 segs.append(("t", body[pos:p] + "\n" + payload.strip() + "\n"))
                 pos = p
             elif kind == "loop":
@@ -381,6 +425,9 @@ class Unit:
                     segs.append(("t", "            decreases " + payload.raw["decreases"].strip() + "\n"))
                 segs.append(("t", "        "))
                 pos = bo
+                if "body_entry" in payload.raw:
+                    segs.append(("t", "{\n" + payload.raw["body_entry"].strip() + "\n"))
+                    pos = bo + 1
             elif kind == "closure":
                 cl = extra
                 segs.append(("t", body[pos:cl["bars"][0]]))
